@@ -530,7 +530,7 @@ func (e *EvalEnv) arith(op token.Token, a, b TV) (Val, error) {
 			if sa {
 				return TV{T: bvBin("bvsrem", a.T, b.T), Typ: a.Typ}, nil
 			}
-			return TV{T: bvBin("bvurem", a.T, b.T), Typ: a.Typ}, nil
+			return TV{T: e.X.urem(a.T, b.T), Typ: a.Typ}, nil
 		case token.AND:
 			return TV{T: bvBin("bvand", a.T, b.T), Typ: a.Typ}, nil
 		case token.OR:
@@ -1380,4 +1380,26 @@ func (e *EvalEnv) specCall(name string, args []ast.Expr) (Val, error) {
 		return TV{T: Raw(sig.Res, name), Typ: typeForSort(sig.Res)}, nil
 	}
 	return TV{T: App(sig.Res, name, ts...), Typ: typeForSort(sig.Res)}, nil
+}
+
+// urem: unsigned remainder. Under `opt abstractmod` a remainder by a non-constant divisor is an uninterpreted
+// function constrained by r < b (b != 0) and r <= a: every fact proved holds for the real operator, and the solver is
+// spared bit-blasting a symbolic 32/64-bit division (a fact that needs more about % than these two axioms is lost).
+func (x *Exec) urem(a, b Term) Term {
+	if _, isConst := b.Const(); isConst || x.topContract == nil || x.topContract.Opts["abstractmod"] == "" {
+		return bvBin("bvurem", a, b)
+	}
+	w := a.Sort.BVWidth()
+	uf := fmt.Sprintf("uf_urem%d", w)
+	x.C.DeclOnce(fmt.Sprintf("(declare-fun %s (%s %s) %s)", uf, a.Sort, a.Sort, a.Sort))
+	t := App(a.Sort, uf, a, b)
+	if x.uremSeen == nil {
+		x.uremSeen = map[string]bool{}
+	}
+	if !x.uremSeen[t.S] {
+		x.uremSeen[t.S] = true
+		x.C.Assume(And(Implies(Not(Eq(b, BVInt(0, w))), bvCmp("bvult", t, b)), bvCmp("bvule", t, a)), "remainder axioms (abstractmod)")
+		x.C.trusted["% by a symbolic divisor is abstracted to an uninterpreted function with r < b and r <= a (opt abstractmod)"] = true
+	}
+	return t
 }
